@@ -219,20 +219,17 @@ pub fn family(name: &str, tier: Tier) -> Vec<Case> {
         // unauthentic variants of every datagram of a transfer (stream packets and control packets of
         // both directions), delivered just ahead of the genuine one: the transfer must be unaffected
         "garble" => {
-            let list: Vec<(usize, usize, usize, Order, u16)> = if quick {
-                vec![(1000, 1000, 100, Order::Seq, 1500), (9000, 9000, 65_536, Order::Concurrent, 1250), (40_000, 1, 65_536, Order::Seq, 9000)]
-            } else {
-                vec![
-                    (1, 1, 1, Order::Seq, 1250),
-                    (1000, 1000, 100, Order::Seq, 1500),
-                    (9000, 9000, 65_536, Order::Concurrent, 1250),
-                    (40_000, 1, 65_536, Order::Seq, 9000),
-                    (1, 40_000, 100, Order::EarlyShutdown, 1500),
-                    (9000, 9000, 100, Order::DropWriter, 1500),
-                    (9000, 9000, 65_536, Order::DropReader, 9000),
-                    (40_000, 40_000, 65_536, Order::SeqFin, 1250),
-                ]
-            };
+            // both tiers: a whole run of this family takes under two seconds
+            let list: Vec<(usize, usize, usize, Order, u16)> = vec![
+                (1, 1, 1, Order::Seq, 1250),
+                (1000, 1000, 100, Order::Seq, 1500),
+                (9000, 9000, 65_536, Order::Concurrent, 1250),
+                (40_000, 1, 65_536, Order::Seq, 9000),
+                (1, 40_000, 100, Order::EarlyShutdown, 1500),
+                (9000, 9000, 100, Order::DropWriter, 1500),
+                (9000, 9000, 65_536, Order::DropReader, 9000),
+                (40_000, 40_000, 65_536, Order::SeqFin, 1250),
+            ];
             for (req, resp, rbuf, order, mtu) in list {
                 let mut scn = Scenario::new(req, resp, rbuf, order, mtu);
                 scn.name = format!("garble/{}", scn.name);
